@@ -43,6 +43,7 @@ type c25Run struct {
 	states    []opcua.ConnState
 	stateAt   []time.Duration
 	closeRet  bool
+	fmu       sync.Mutex // guards lastFault, downUntil, e, c2s, s2c, Faults[i].fired
 	lastFault time.Duration
 	downUntil time.Duration
 	c2s, s2c  int
@@ -90,27 +91,34 @@ func (r *c25Run) Setup(s *sim.Sim) {
 
 const c25FaultPhase = 45 * time.Second
 
-func (r *c25Run) noteFault(end time.Duration) {
+func (r *c25Run) noteFault(end time.Duration) { // fmu held
 	if end > r.lastFault {
 		r.lastFault = end
 	}
 }
 
+func (r *c25Run) last() time.Duration { r.fmu.Lock(); defer r.fmu.Unlock(); return r.lastFault }
+func (r *c25Run) env() *env           { r.fmu.Lock(); defer r.fmu.Unlock(); return r.e }
+
 func (r *c25Run) startEnv() error {
 	e, err := startServerOnRoot(r.s, func(e *env) {
-		if r.RestoreNodes || r.e == nil {
+		if r.RestoreNodes || r.env() == nil {
 			e.ns.AddNewVariableStringNode("x", int32(5))
 		}
 	})
 	if err != nil {
 		return err
 	}
+	r.fmu.Lock()
 	r.e = e
+	r.fmu.Unlock()
 	return nil
 }
 
 // apply runs on the root goroutine.
 func (r *c25Run) apply(f *c25Fault, c *sim.Conn) {
+	r.fmu.Lock()
+	defer r.fmu.Unlock()
 	if f.fired {
 		return
 	}
@@ -186,17 +194,23 @@ func (r *c25Run) Main(s *sim.Sim) {
 	}
 	s.Net.OnConn = func(c *sim.Conn) {
 		c.C2S.Observers = append(c.C2S.Observers, func(fr []byte) {
+			r.fmu.Lock()
 			r.c2s++
+			n := r.c2s
+			r.fmu.Unlock()
 			for i := range r.Faults {
-				if f := &r.Faults[i]; f.Trigger == "c2s" && f.N == r.c2s {
+				if f := &r.Faults[i]; f.Trigger == "c2s" && f.N == n {
 					r.apply(f, c)
 				}
 			}
 		})
 		c.S2C.Observers = append(c.S2C.Observers, func(fr []byte) {
+			r.fmu.Lock()
 			r.s2c++
+			n := r.s2c
+			r.fmu.Unlock()
 			for i := range r.Faults {
-				if f := &r.Faults[i]; f.Trigger == "s2c" && f.N == r.s2c {
+				if f := &r.Faults[i]; f.Trigger == "s2c" && f.N == n {
 					r.apply(f, c)
 				}
 			}
@@ -259,8 +273,8 @@ func (r *c25Run) Main(s *sim.Sim) {
 			s.Fail("C25", "state", "connected-after-failed-connect", "Connect returned %v but State() is Connected", err)
 			return
 		}
-		if s.Now() > c25FaultPhase+r.lastFault+bound+30*time.Second {
-			s.Fail("C25", "liveness", "connect-never-succeeds", "Connect still failing %v after the last fault: %v", s.Now()-r.lastFault, err)
+		if s.Now() > c25FaultPhase+r.last()+bound+30*time.Second {
+			s.Fail("C25", "liveness", "connect-never-succeeds", "Connect still failing %v after the last fault: %v", s.Now()-r.last(), err)
 			return
 		}
 		if closeEarly && s.Now() >= closeAt {
@@ -287,7 +301,7 @@ func (r *c25Run) Main(s *sim.Sim) {
 	if connected && r.WithSub {
 		ch := make(chan *opcua.PublishNotificationData, 1000)
 		if sub, err := cl.Subscribe(ctx, &opcua.SubscriptionParameters{Interval: 200 * time.Millisecond}, ch); err == nil {
-			sub.Monitor(ctx, ua.TimestampsToReturnBoth, opcua.NewMonitoredItemCreateRequestWithDefaults(r.e.nodeID("x"), ua.AttributeIDValue, 7))
+			sub.Monitor(ctx, ua.TimestampsToReturnBoth, opcua.NewMonitoredItemCreateRequestWithDefaults(r.env().nodeID("x"), ua.AttributeIDValue, 7))
 		}
 		go func() {
 			for {
@@ -327,28 +341,30 @@ func (r *c25Run) Main(s *sim.Sim) {
 	} else {
 		// wait for the fault phase to end, then for the recovery bound
 		time.Sleep(c25FaultPhase - s.Now() + time.Millisecond)
-		for s.Now() < r.lastFault+bound {
-			time.Sleep(r.lastFault + bound - s.Now() + time.Millisecond)
+		for s.Now() < r.last()+bound {
+			time.Sleep(r.last() + bound - s.Now() + time.Millisecond)
 		}
 		fired := 0
+		r.fmu.Lock()
 		for _, f := range r.Faults {
 			if f.fired {
 				fired++
 			}
 		}
+		r.fmu.Unlock()
 		if fired > 0 {
 			s.Nontrivial()
 		}
 		if connected && r.AutoReconnect {
 			if st := cl.State(); st != opcua.Connected {
-				s.Fail("C25", "liveness", "not-connected-after-faults:"+r.hint(), "state is %v, %v after the last fault ended (bound %v); states=%v", st, s.Now()-r.lastFault, bound, r.stateLog())
+				s.Fail("C25", "liveness", "not-connected-after-faults:"+r.hint(), "state is %v, %v after the last fault ended (bound %v); states=%v", st, s.Now()-r.last(), bound, r.stateLog())
 				return
 			}
 			rctx, cancel := context.WithTimeout(ctx, 2*reqTO)
 			_, err := cl.Read(rctx, stateReq)
 			cancel()
 			if err != nil {
-				s.Fail("C25", "liveness", "read-fails-after-faults:"+r.hint(), "Read fails with %v, %v after the last fault ended; states=%v", err, s.Now()-r.lastFault, r.stateLog())
+				s.Fail("C25", "liveness", "read-fails-after-faults:"+r.hint(), "Read fails with %v, %v after the last fault ended; states=%v", err, s.Now()-r.last(), r.stateLog())
 				return
 			}
 			s.Probe("recovered")
@@ -400,7 +416,7 @@ func (r *c25Run) Main(s *sim.Sim) {
 		return
 	}
 	r.checkStates(s)
-	r.e.cancel()
+	r.env().cancel()
 }
 
 // hint narrows a liveness failure down to a catalogued cause, if one applies.
